@@ -112,6 +112,9 @@ pub struct Aggregate {
     pub violations: Vec<ReportedViolation>,
     pub known_hits: BTreeMap<String, u64>,
     pub harness_errors: Vec<String>,
+    /// things worth a line on stderr that do not decide the exit code
+    #[serde(default)]
+    pub notes: Vec<String>,
 }
 
 #[derive(Clone, Debug, Serialize, Deserialize)]
@@ -212,6 +215,7 @@ impl Aggregate {
             *self.known_hits.entry(k).or_default() += v;
         }
         self.harness_errors.extend(other.harness_errors);
+        self.notes.extend(other.notes);
     }
 }
 
